@@ -9,9 +9,10 @@ Inductive life :=
 | Live (g : Z) (kp : bool)       (* kp : a deferred deletion is pending *)
 | Pend (g : Z) (kp : bool).      (* created deferred, not merged yet *)
 
-Record lstate := { cells : NM.t life; used : N }.
+(* [nfree]: the number of Free cells (kept incrementally: the test "is any index free?" is O(1)) *)
+Record lstate := { cells : NM.t life; used : N; nfree : N }.
 
-Definition l_init : lstate := {| cells := NM.empty life; used := 0 |}.
+Definition l_init : lstate := {| cells := NM.empty life; used := 0; nfree := 0 |}.
 
 Definition cell (s : lstate) (i : N) : life :=
   match NM.find i (cells s) with Some c => c | None => Never end.
@@ -22,11 +23,19 @@ Definition top (c : life) : Z :=
 Definition is_free (c : life) : bool := match c with Free _ => true | _ => false end.
 Definition occupied (c : life) : bool := match c with Live _ _ | Pend _ _ => true | _ => false end.
 
-Definition set_cell (s : lstate) (i : N) (c : life) : lstate :=
-  {| cells := NM.add i c (cells s); used := used s |}.
+Definition free_b (c : life) : N := if is_free c then 1 else 0.
 
-Definition has_free (s : lstate) : bool :=
-  existsb (fun p => is_free (snd p)) (NM.elements (cells s)).
+Definition set_cell (s : lstate) (i : N) (c : life) : lstate :=
+  {| cells := NM.add i c (cells s); used := used s; nfree := nfree s + free_b c - free_b (cell s i) |}.
+
+Definition has_free (s : lstate) : bool := negb (N.eqb (nfree s) 0).
+
+(* number of Free cells of a map among the indices k .. k+n-1 *)
+Fixpoint cnt_free (m : NM.t life) (k : N) (n : nat) : N :=
+  match n with
+  | O => 0
+  | S n' => free_b (match NM.find k m with Some c => c | None => Never end) + cnt_free m (k + 1) n'
+  end.
 
 (* What the implementation may pick for a creation. *)
 Definition valid_choice (s : lstate) (i : N) : bool :=
@@ -40,7 +49,8 @@ Definition l_create (pend : bool) (s : lstate) (i : N) : lstate * entity :=
   let g := (top (cell s i) + 1)%Z in
   let c := if pend then Pend g false else Live g false in
   ({| cells := NM.add i c (cells s);
-      used := if N.eqb i (used s) then used s + 1 else used s |}, (i, g)).
+      used := if N.eqb i (used s) then used s + 1 else used s;
+      nfree := nfree s - free_b (cell s i) |}, (i, g)).
 
 Definition l_is_alive (s : lstate) (e : entity) : bool :=
   match cell s (fst e) with
@@ -81,7 +91,8 @@ Definition dies_at_merge (c : life) : bool :=
   match c with Pend _ true | Live _ true => true | _ => false end.
 
 Definition l_merge (s : lstate) : lstate * list entity :=
-  ({| cells := NM.map merge_cell (cells s); used := used s |},
+  ({| cells := NM.map merge_cell (cells s); used := used s;
+      nfree := cnt_free (NM.map merge_cell (cells s)) 0 (N.to_nat (used s)) |},
    map (fun p => (fst p, top (snd p))) (filter (fun p => dies_at_merge (snd p)) (NM.elements (cells s)))).
 
 Definition l_entities (s : lstate) : list entity :=
